@@ -376,8 +376,9 @@ func c12Frac(r *rand.Rand, base string, zeroAlt string) (string, string) {
 	}
 }
 
-func c12Chooser1(r *rand.Rand, n int, maxTx int, hist map[string]int) c12Chooser {
+func c12Chooser1(r *rand.Rand, n int, maxTx int, hist map[string]int, noDonate bool) c12Chooser {
 	e18 := "000000000000000000"
+	exodus, quiet := false, 0
 	return func(run *c12Runner, height int64, cur c12Snap) []c12Op {
 		ops := []c12Op{}
 		cnt := r.Intn(maxTx + 1)
@@ -387,6 +388,22 @@ func c12Chooser1(r *rand.Rand, n int, maxTx int, hist map[string]int) c12Chooser
 		active := map[int]string{}
 		for _, e := range cur.Active {
 			active[e.A] = e.Amt
+		}
+		if quiet > 0 {
+			quiet--
+			return ops
+		}
+		if exodus {
+			// everybody undelegates everything right after a reward withdrawal, then nothing happens
+			// until that withdrawal has matured: its maturity block begins with an empty pool
+			exodus, quiet = false, 4
+			for a := 0; a < n; a++ {
+				if act := active[a]; act != "" && c12Big(act).Sign() > 0 {
+					ops = append(ops, c12Op{Kind: "undelegate", A: a, Amt: act})
+					hist["undelegate-all-exodus"]++
+				}
+			}
+			return ops
 		}
 		if r.Intn(9) == 0 {
 			// zero burst: one delegator undelegates 0 (his only operation in this block), every
@@ -444,6 +461,12 @@ func c12Chooser1(r *rand.Rand, n int, maxTx int, hist map[string]int) c12Chooser
 				o, cls = c12Op{Kind: "donate", A: a, Amt: "-" + strconv.Itoa(1+r.Intn(5)) + e18}, "donate-negative"
 			default:
 				o, cls = c12Op{Kind: "donate", A: a, Amt: strconv.Itoa(1+r.Intn(5)) + e18}, "donate"
+			}
+			if noDonate && o.Kind == "donate" {
+				o, cls = c12Op{Kind: "withdrawrw", A: a, Amt: "1"}, "withdrawrw-one"
+			}
+			if noDonate && o.Kind == "withdrawrw" && !strings.HasPrefix(o.Amt, "-") && r.Intn(3) == 0 {
+				exodus = true
 			}
 			hist[cls]++
 			ops = append(ops, o)
@@ -565,6 +588,9 @@ type c12Report struct {
 	ReinvUnd  int            `json:"successful_reinvests_directly_after_a_successful_undelegate"`
 	ReinvUndO int            `json:"successful_reinvests_directly_after_an_undelegate_by_another_delegator"`
 	Restarts  int            `json:"node_restarts"`
+	RwEmpty   int            `json:"reward_withdrawals_maturing_at_a_block_that_begins_with_an_empty_pool"`
+	UndEmpty  int            `json:"undelegations_maturing_at_a_block_that_begins_with_an_empty_pool"`
+	EmptyBeg  int            `json:"blocks_beginning_with_an_empty_pool_after_block_1"`
 	Alien     int            `json:"alien_keys"`
 	Files     []string       `json:"files"`
 	Samples   []string       `json:"samples"`
@@ -589,6 +615,19 @@ func c12Witnesses() []c12Spec {
 		w = append(w, c12Spec{Name: "witness_reinvest_after_undelegate", NUsers: 2, Blocks: b1})
 		b2 := [][]c12Op{{d(0), d(1)}, {}, {}, {ri}, {}, {{Kind: "undelegate", A: 1, Amt: "10" + e18}}, {ri}}
 		w = append(w, c12Spec{Name: "witness_reinvest_first_after_restart", NUsers: 2, Blocks: b2, RestartBefore: []int{3, 6}})
+	}
+	// a reward withdrawal whose maturity block begins with an EMPTY delegation pool (everybody has
+	// undelegated everything, nobody donated) must still be paid at W+maturity; control: one stays
+	for ctl := 0; ctl < 2; ctl++ {
+		d := func(a int) c12Op { return c12Op{Kind: "delegate", A: a, Amt: "1000" + e18} }
+		u := func(a int) c12Op { return c12Op{Kind: "undelegate", A: a, Amt: "1000" + e18} }
+		b := [][]c12Op{{d(0), d(1)}, {}, {}, {{Kind: "withdrawrw", A: 0, Amt: "1000"}}, {u(0), u(1)}, {}, {}, {}, {}, {}}
+		name := "witness_reward_maturity_empty_pool"
+		if ctl == 1 {
+			b[4] = []c12Op{u(0)}
+			name = "witness_reward_maturity_one_stays"
+		}
+		w = append(w, c12Spec{Name: name, NUsers: 2, Blocks: b})
 	}
 	// a ZERO undelegation by one delegator (alone in the block for him) next to real undelegations of
 	// the others maturing at the same height: the zero entry is a real key of the scan; everybody else
@@ -658,8 +697,13 @@ func c12Main(args []string) int {
 				nb, variant = 132, 1
 			}
 			spec := c12Spec{Name: fmt.Sprintf("gen_%d_v%d", i, variant), NUsers: n, Gen: c12GenGenesis(r, variant, n)}
+			noDonate := i%3 == 2 // no direct transfers to the pool: it can become exactly empty
+			if noDonate {
+				spec.Gen.PoolExtra = ""
+				rep.GenHist["no_donations"]++
+			}
 			rep.GenHist[fmt.Sprintf("variant%d", variant)]++
-			cases = append(cases, c12Run(spec, c12Chooser1(r, n, 4, rep.ClassHist), nb))
+			cases = append(cases, c12Run(spec, c12Chooser1(r, n, 4, rep.ClassHist, noDonate), nb))
 		}
 	}
 
@@ -674,6 +718,7 @@ func c12Main(args []string) int {
 		undOK, reinvOK, newKey := map[int]int{}, map[int]bool{}, map[int]bool{}
 		hadKey := map[int]bool{}
 		lastStoreOp, lastStoreBy := "", -1
+		hNow := int64(0)
 		rep.Restarts += len(c.Spec.RestartBefore)
 		for _, e := range c.Gen.Active {
 			hadKey[e.A] = true
@@ -682,6 +727,24 @@ func c12Main(args []string) int {
 			rep.KindHist[o.Kind]++
 			sb.WriteString(o.Kind + o.Amt + ";")
 			if o.Kind == "begin" {
+				prevSnap := c.Gen
+				if i > 0 {
+					prevSnap = c.Snaps[i-1]
+				}
+				hNow++
+				if prevSnap.Pool == "0" && hNow > 1 {
+					rep.EmptyBeg++
+					for _, e := range prevSnap.RPend {
+						if e.H == hNow && e.Amt != "0" {
+							rep.RwEmpty++
+						}
+					}
+					for _, e := range prevSnap.Pend {
+						if e.H == hNow && e.Amt != "0" {
+							rep.UndEmpty++
+						}
+					}
+				}
 				rep.Blocks++
 				if multi {
 					rep.MultiOps++
